@@ -39,32 +39,56 @@ def string_val(I, items):
     return I.lib.new_string(items)
 
 
-def configure(I, prog, bp, cfg):
+def configure(I, prog, bp, cfg, order=None):
     """cfg keys: margin, bg, fg (4 scalars), layers [(shape idx, colour or None)], image (list of code points),
-    ibg, ishape, isize, igap, ipos"""
+    ibg, ishape, isize, igap, ipos.
+    order: None = canonical order of the setter calls; an int = seed of a shuffle of the calls (the layer calls keep their
+    relative order, which is part of the configuration; every other setter only has a final value, so the rendering must
+    not depend on where it was called).  Returns the list of setter names in the order they were called."""
+    calls = []
     if 'margin' in cfg:
-        call_setter(I, prog, bp, 'margin', [cfg['margin']])
+        calls.append(('margin', [cfg['margin']], None))
     if 'bg' in cfg:
-        call_setter(I, prog, bp, 'background_color', [color_arr(I, cfg['bg'])], {'C': '[u8; 4]'})
+        calls.append(('background_color', [color_arr(I, cfg['bg'])], {'C': '[u8; 4]'}))
     if 'fg' in cfg:
-        call_setter(I, prog, bp, 'module_color', [color_arr(I, cfg['fg'])], {'C': '[u8; 4]'})
+        calls.append(('module_color', [color_arr(I, cfg['fg'])], {'C': '[u8; 4]'}))
     for (sh, col) in cfg.get('layers', []):
         if col is None:
-            call_setter(I, prog, bp, 'shape', [shape_val(I, sh)])
+            calls.append(('shape', [shape_val(I, sh)], None))
         else:
-            call_setter(I, prog, bp, 'shape_color', [shape_val(I, sh), color_arr(I, col)], {'C': '[u8; 4]'})
+            calls.append(('shape_color', [shape_val(I, sh), color_arr(I, col)], {'C': '[u8; 4]'}))
     if 'image' in cfg:
-        call_setter(I, prog, bp, 'image', [string_val(I, cfg['image'])])
+        calls.append(('image', [string_val(I, cfg['image'])], None))
     if 'ibg' in cfg:
-        call_setter(I, prog, bp, 'image_background_color', [color_arr(I, cfg['ibg'])], {'C': '[u8; 4]'})
+        calls.append(('image_background_color', [color_arr(I, cfg['ibg'])], {'C': '[u8; 4]'}))
     if 'ishape' in cfg:
-        call_setter(I, prog, bp, 'image_background_shape', [cfg['ishape']])
+        calls.append(('image_background_shape', [cfg['ishape']], None))
     if 'isize' in cfg:
-        call_setter(I, prog, bp, 'image_size', [cfg['isize']])
+        calls.append(('image_size', [cfg['isize']], None))
     if 'igap' in cfg:
-        call_setter(I, prog, bp, 'image_gap', [cfg['igap']])
+        calls.append(('image_gap', [cfg['igap']], None))
     if 'ipos' in cfg:
-        call_setter(I, prog, bp, 'image_position', [cfg['ipos'][0], cfg['ipos'][1]])
+        calls.append(('image_position', [cfg['ipos'][0], cfg['ipos'][1]], None))
+    if order is not None:
+        import random as _r
+        rr = _r.Random(order)
+        layer_calls = [c for c in calls if c[0] in ('shape', 'shape_color')]
+        other = [c for c in calls if c[0] not in ('shape', 'shape_color')]
+        rr.shuffle(other)
+        # interleave: the layer calls keep their relative order
+        slots = sorted(rr.sample(range(len(calls)), len(layer_calls))) if layer_calls else []
+        merged, li, oi = [], 0, 0
+        for k in range(len(calls)):
+            if li < len(slots) and k == slots[li]:
+                merged.append(layer_calls[li])
+                li += 1
+            else:
+                merged.append(other[oi])
+                oi += 1
+        calls = merged
+    for name, args, subst in calls:
+        call_setter(I, prog, bp, name, args, subst)
+    return [c[0] for c in calls]
 
 
 def make_qr(I, n, cells):
